@@ -959,10 +959,10 @@ func TestVerifC08(t *testing.T) {
 			jobs = append(jobs, job{sid, run})
 		}
 	}
-	// quick: 8 random sequences, every crash scenario once (12, four per store); thorough: 25x
+	// quick: 8 random sequences, every crash scenario once (12, four per store); thorough: 60 / 15x
 	nRandom, nCrashSeq := 8, 3
 	if thorough {
-		nRandom, nCrashSeq = 100, 75
+		nRandom, nCrashSeq = 60, 45
 	}
 	for i := 0; i < nRandom; i++ {
 		sid, n := fmt.Sprintf("r%d", i), 30+(i*7+int(seed))%31
@@ -998,7 +998,7 @@ func TestVerifC08(t *testing.T) {
 	// the schedule hook is global: the concurrent part runs alone
 	nConc := 1
 	if thorough {
-		nConc = 10
+		nConc = 6
 	}
 	for i := 0; i < nConc; i++ {
 		sid := fmt.Sprintf("k%d", i)
